@@ -228,8 +228,8 @@ Fixpoint monitor_from (m : mstate) (ops : list op) (bs : list obs) : bool :=
          before Start(), while the loop is busy, inside Stop() whoever calls it, after the
          loop's end - is held against the property clause by clause; in particular it must
          have run on the goroutine that drains the queue, which must exist *)
-      | (OWait _ | OStopSvc _), BWait n l =>
-          let '(b1, m1) := m_cbs m l in (0 <=? n) && b1 && monitor_from m1 r br
+      | (OWait _ | OStopSvc _), BWait q l =>
+          let '(b1, m1) := m_cbs m l in m_queued_ok m q && b1 && monitor_from m1 r br
       | _, _ => false
       end
   | _, _ => false
